@@ -100,7 +100,12 @@ fn dispatch(id: &str, ra: RunArgs) -> i32 {
         "C36" => run_check(checks::c36::C36, ra),
         "C13" => run_check(checks::c13::C13, ra),
         "C33" => run_check(checks::simchecks::c33(), ra),
-        "C16" => run_check(checks::c16::C16, ra),
+        "C16" => run_check(checks::c16::C16("C16"), ra),
+        // engine-specific half of C33 (real File / RocksDB state machines across a restart), auxiliary engine of ./check C33
+        "C33file" => {
+            unsafe { std::env::set_var("VERIF_EVIDENCE_SUFFIX", ".engines") };
+            run_check(checks::c16::C16("C33"), ra)
+        }
         "C17" => run_check(checks::c17::C17, ra),
         "C01" => run_check(checks::simchecks::c01(), ra),
         "C04" => run_check(checks::simchecks::c04(), ra),
